@@ -108,6 +108,13 @@ pub fn open_stack<'a>(bytes: Vec<u8>, stack: u8, kc: &KeyCtx, junk: usize) -> Re
     let mut c = Cursor::new(bytes);
     c.seek(SeekFrom::Start(junk as u64)).unwrap();
     let mut raw = Box::new(RawLayerReader::new(c));
+    // the layer may have been used before it is pinned (a container read its trailer through it to find the
+    // stream): an end-relative and a start seek first, for every other offset, then back to the start of the stream
+    if junk % 2 == 1 {
+        let _ = raw.seek(SeekFrom::End(0)).map_err(|e| io_err_class(&e))?;
+        let _ = raw.seek(SeekFrom::End(-1)).map_err(|e| io_err_class(&e))?;
+        raw.seek(SeekFrom::Start(junk as u64)).map_err(|e| io_err_class(&e))?;
+    }
     raw.reset_position().map_err(|e| io_err_class(&e))?;
     let mut src: DynReader<'a> = raw;
     if stack & L_ENC != 0 {
